@@ -347,7 +347,7 @@ class StmtMixin(object):
         yield 'raise', st1, c
         continue
       narrowed = self.narrowing(s.test)
-      for st2, taken in self.fork(st1, truthy(c, st1)):
+      for st2, taken in self.fork(st1, self.truth(c, st1)):
         if narrowed is not None:
           self.apply_narrowing(narrowed, taken, st2)
         yield from self.exec_block(s.body if taken else s.orelse, st2)
@@ -398,7 +398,17 @@ class StmtMixin(object):
             yield from self._run_handler(h, v, st1, s)
             break
           if m is None:
-            raise Unsupported('cannot decide whether %s is caught by %s' % (v.cls, names))
+            # an opaque exception: whether it is an instance of the handler's classes is a predicate
+            # of the exception object (shared by implementation and specification)
+            pred = ufn('exc_isa!' + '|'.join(sorted(names)), U, B)(to_u(v.payload, st1))
+            s_in = st1.fork()
+            s_in.assume(pred)
+            if self.feasible(s_in):
+              yield from self._run_handler(h, v, s_in, s)
+            st1.assume(z3.Not(pred))
+            if not self.feasible(st1):
+              handled = True
+              break
         if not handled:
           yield from self._finally(s, kind, st1, v)
       elif kind == 'normal' and s.orelse:
